@@ -604,6 +604,11 @@ func (c *c05Chain) c05BuildTx(op c05Op) (*transaction.Transaction, error) {
 		return nil, fmt.Errorf("account %d cannot sign", op.F)
 	}
 	h := func(i int) util.Uint160 {
+		if i == c05AReenterA || i == c05AReenterB { // the re-entering receivers (harness/c05reent.go)
+			if ct, err := c05ReenterContract(c.t, u.hashes[c05AValidators], i-c05AReenterA); err == nil {
+				return ct.Hash
+			}
+		}
 		if i > 100 && i <= 114 { // the storage contract deployed by account i-100 (harness/c01.go)
 			if cc, err := c01Compile(c.t, u.hashes[i-100]); err == nil {
 				return cc.v1.Hash
@@ -667,6 +672,8 @@ func (c *c05Chain) c05BuildTx(op c05Op) (*transaction.Transaction, error) {
 		return c.c05NotaryTx(op)
 	case "lim":
 		return c.c05LimTx(op)
+	case "rdeploy", "rcfg":
+		return c.c05ReentTx(op)
 	case "fault": // moves NEO and GAS, then aborts: everything but the fee is rolled back
 		w := io.NewBufBinWriter()
 		emit.AppCall(w.BinWriter, c.neoH, "transfer", callflag.All, h(op.F), h(op.To), op.A, nil)
